@@ -93,5 +93,6 @@ theorem listen_total : ∀ (e : Js) (n : Names), ∃ r, listen n e = .ok r := by
     intro n
     obtain ⟨⟨n1, k1⟩, h1⟩ := ih (shadowParams n.push ps)
     exact ⟨_, by simp only [listen]; exact bind_ok_intro h1 rfl⟩
+  | loop i k m body ih => intro n; simp only [listen]; exact ih n
 
 end SFV.JsDeps
